@@ -248,7 +248,7 @@ def run_shard(spec):
             nt, cl = run_e1_case(case)
             st_.case(["e1", case], nt, cl, sample=case if count[0] % 30 == 1 else None)
 
-        res = runner.hyp_search(e1_cases(tier), body, seed=runner.derive_seed(seed, ID, "e1", i), max_examples=40 if tier == "quick" else 600, shrink=False)
+        res = runner.hyp_search(e1_cases(tier), body, seed=runner.derive_seed(seed, ID, "e1", i), max_examples=150 if tier == "quick" else 1000, shrink=False)
         if res is not None:
             case, v = res
             st_.fail(dict(case, kind="e1"), v.message, v.signature, getattr(v, "extra", None))
@@ -277,7 +277,7 @@ def run_shard(spec):
         info = run_pure_case(case)
         st_.case(case, info["nontrivial"], info["classes"], sample=case if count[0] % 100 == 1 else None)
 
-    res = runner.hyp_search(hyp_cases(), body, seed=runner.derive_seed(seed, ID, i), max_examples=250 if tier == "quick" else 4000)
+    res = runner.hyp_search(hyp_cases(), body, seed=runner.derive_seed(seed, ID, i), max_examples=1000 if tier == "quick" else 8000)
     if res is not None:
         case, v = res
         st_.fail(case, v.message, v.signature)
